@@ -40,6 +40,18 @@ func genC16(d *RunDesc, tier string) {
 		v, _ := genValidVector(wl, k)
 		d.World = append(d.World, ObjSpec{Kind: k, Vec: v})
 	}
+	// now and then the owner assigns a field or two after decoding, before sharing
+	for i := range d.World {
+		if wl.chance(1, 4) {
+			for n := wl.between(1, 2); n > 0; n-- {
+				donor := ""
+				if wl.chance(4, 5) {
+					donor, _ = genValidVector(wl, d.World[i].Kind)
+				}
+				d.World[i].Sets = append(d.World[i].Sets, WorldSet{Field: wl.intn(64), DonorVec: donor})
+			}
+		}
+	}
 	for i, o := range d.World {
 		if !kindIsV2(o.Kind) && wl.chance(2, 3) {
 			d.WorldReps = append(d.WorldReps, RepSpec{Obj: i, Lang: wl.intn(len(langs))})
@@ -232,7 +244,40 @@ func genC16(d *RunDesc, tier string) {
 func buildWorld(d *RunDesc) *world {
 	w := &world{}
 	for _, o := range d.World {
-		w.objs = append(w.objs, doDecode(o.Kind, o.NilRecv, o.Vec))
+		so := doDecode(o.Kind, o.NilRecv, o.Vec)
+		// assignments by the owner before the object is shared
+		for _, ws := range o.Sets {
+			cur := so.current()
+			if isNilObj(cur) {
+				break
+			}
+			fs := fieldsOf(cur)
+			if len(fs) == 0 {
+				break
+			}
+			f := fs[ws.Field%len(fs)]
+			var val int64
+			have := false
+			if ws.DonorVec != "" {
+				if dn := doDecode(o.Kind, false, ws.DonorVec); dn.err == nil && !isNilObj(dn.res) {
+					if dv, ok := fieldValue(dn.res, f); ok {
+						val, have = dv.Int(), true
+					}
+				}
+			}
+			if !have {
+				if inv, ok := invalidValueOf(f.typ); ok {
+					val, have = inv.Int(), true
+				}
+			}
+			if have {
+				func() {
+					defer func() { _ = recover() }()
+					so.applyStep(stateStep{field: f, val: val})
+				}()
+			}
+		}
+		w.objs = append(w.objs, so)
 	}
 	for _, r := range d.WorldReps {
 		var sr *slotRep
